@@ -166,6 +166,16 @@ Theorem totals_vs_register :
 Proof. exact ProgramAgree.totals_vs_register. Qed.
 Print Assumptions totals_vs_register.
 
+(** law-free (every [Num], binary64 included): the rows [reg -s x] prints are, day by day, the rows of
+    [x] in the register's daily totals *)
+Theorem single_rows_are_register_rows :
+  forall (NM : Num) (d : list (bytes * list (bytes * T NM))) (recs : list (ProgramSpec.record NM)) (x : bytes),
+    map (fun row => (sr_pos NM row, sr_neg NM row)) (single_rows_of NM d x recs)
+    = flat_map (fun rows => match row_of NM x rows with Some pn => [pn] | None => [] end)
+               (register_day_totals_of NM d recs).
+Proof. exact ProgramAgree.single_rows_are_register_rows. Qed.
+Print Assumptions single_rows_are_register_rows.
+
 (** "... and of the single-element register rows": the row of [x] in [report totals] is the column-wise
     sum of the rows [reg -s x] prints; no row iff [reg -s x] prints nothing *)
 Theorem totals_vs_single :
